@@ -6,7 +6,7 @@
    exactly these calls, and every call of the model is either observed or declared unobservable. *)
 From Coq Require Import List ZArith NArith Bool Arith.
 Import ListNotations.
-From LV Require Import Base.ListAux Goose.Epoch Goose.Keys.
+From LV Require Import Base.ListAux Goose.Epoch Goose.Keys Goose.Builder.
 Close Scope Z_scope.
 Open Scope nat_scope.
 
@@ -19,6 +19,7 @@ Record obs := mkO { o_chain : nat; o_meth : nat; o_idx : nat; o_epoch : nat; o_t
 
 Record ccase := mkCC {
   cc_nch : nat; cc_jit : option nat; cc_nker : nat; cc_nqg : nat; cc_chunk : nat;
+  cc_eseed : bool;                   (* set_engine_seed installed another engine key (path [(200, 1)]) *)
   cc_sched : list (Z * Z * Z);       (* (type code, duration, thinning) *)
   cc_raised : bool;                  (* the real run raised in _sample_for_duration *)
   cc_obs : list obs;                 (* observed calls *)
@@ -31,8 +32,13 @@ Definition label_is (l : label) (o : obs) : bool :=
 Definition sched_of (l : list (Z * Z * Z)) : list econf :=
   map (fun x => mkE (ety_of_code (fst (fst x))) (snd (fst x)) (snd x)) l.
 
+(* jax.random.PRNGKey as a path: distinct integers give unrelated roots; the constructor's seed is the root [] *)
+Definition tagkey (z : Z) : key := [(200, Z.to_nat z)].
 Definition model_calls (c : ccase) : option (list (label * key)) :=
-  run_calls [] (cc_nch c) (cc_jit c) (mkP (cc_nker c) (cc_nqg c) (cc_chunk c)) (sched_of (cc_sched c)).
+  if cc_eseed c
+  then run_calls_g (tagkey 1) (b_jitter []) (cc_nch c) (cc_jit c) (mkP (cc_nker c) (cc_nqg c) (cc_chunk c))
+                   (sched_of (cc_sched c))
+  else run_calls [] (cc_nch c) (cc_jit c) (mkP (cc_nker c) (cc_nqg c) (cc_chunk c)) (sched_of (cc_sched c)).
 
 Definition obs_ok (calls : list (label * key)) (o : obs) : bool :=
   match find (fun lk => label_is (fst lk) o) calls with
@@ -108,10 +114,10 @@ Definition rw_world (nk : nat) (tgt : list nat) (tbl : list (N * Z)) (p : params
       p sched false.
 
 Record scase := mkSC {
-  sc_nch : nat; sc_jit : option nat; sc_tgt : list nat; sc_nker : nat; sc_nqg : nat; sc_chunk : nat;
+  sc_nch : nat; sc_tgt : list nat; sc_nker : nat; sc_nqg : nat; sc_chunk : nat;
   sc_sched : list (Z * Z * Z);
   sc_tbl : list (N * Z);
-  sc_init : init_arg (list Z);
+  sc_ops : list (bop (list Z));                   (* the builder calls of the run, in order *)
   sc_raised : bool;                               (* the real run raised *)
   sc_stored : list (list (nat * nat * list Z)) }. (* per chain: (epoch, time_in_epoch, position) *)
 
@@ -121,20 +127,20 @@ Definition sc_world (c : scase) : world :=
 Definition entry_eqb (x y : nat * nat * list Z) : bool :=
   (fst (fst x) =? fst (fst y)) && (snd (fst x) =? snd (fst y)) && list_eqb Z.eqb (snd x) (snd y).
 
-Definition s_model (v : siv_variant) (c : scase) : option (list (list (nat * nat * list Z))) :=
-  match W_run_batched (sc_world c) v [] (sc_nch c) (sc_jit c) (sc_init c) with
+(* EngineBuilder(seed, nch); the recorded calls; the engine of the last build(); sample_all_epochs() *)
+Definition s_model (v : siv_variant) (bv : build_variant) (c : scase)
+  : option (list (list (nat * nat * list Z))) :=
+  match b_script (list Z) tagkey (w_jitter_apply (sc_world c)) v bv (KeySeed []) (sc_nch c) (sc_ops c) with
   | None => None
-  | Some r => Some (map (W_stored (sc_world c)) r)
+  | Some ei =>
+      match W_run_built (sc_world c) ei with
+      | None => None
+      | Some r => Some (map (W_stored (sc_world c)) r)
+      end
   end.
 
-Definition s_agrees (v : siv_variant) (c : scase) : bool :=
-  match s_model v c with
+Definition s_agrees (v : siv_variant) (bv : build_variant) (c : scase) : bool :=
+  match s_model v bv c with
   | None => sc_raised c
   | Some st => negb (sc_raised c) && list_eqb (list_eqb entry_eqb) st (sc_stored c)
   end.
-
-(* the first-sample clause alone, read off the model: jitter_c (init_c) *)
-Definition s_first (c : scase) : list (option (list Z)) :=
-  map (fun ch => match W_init_of (sc_world c) (sc_nch c) (sc_init c) ch with
-                 | Some i0 => Some (W_jittered (sc_world c) [] (sc_nch c) (sc_jit c) ch i0)
-                 | None => None end) (seq 0 (sc_nch c)).
